@@ -60,14 +60,14 @@ class SortedFacts:
 
 def run(prog: Program, rep: Report):
     sf = SortedFacts(prog)
-    r1_empty(prog, rep, sf)
-    r2_dedup(prog, rep, sf)
-    r3_unorderable(prog, rep, sf)
-    r4_parallel(prog, rep, sf)
-    r5_provenance(prog, rep, sf)
-    r6_validation(prog, rep, sf)
-    r7_observers(prog, rep, sf)
-    r8_empty_methods(prog, rep, sf)
+    rep.attempt(lambda: r1_empty(prog, rep, sf))
+    rep.attempt(lambda: r2_dedup(prog, rep, sf))
+    rep.attempt(lambda: r3_unorderable(prog, rep, sf))
+    rep.attempt(lambda: r4_parallel(prog, rep, sf))
+    rep.attempt(lambda: r5_provenance(prog, rep, sf))
+    rep.attempt(lambda: r6_validation(prog, rep, sf))
+    rep.attempt(lambda: r7_observers(prog, rep, sf))
+    rep.attempt(lambda: r8_empty_methods(prog, rep, sf))
     from .memo import public_entry_points, rule_derived_state
     for c in (sf.sset, sf.smap):
         prim = {x for x in (sf.key_storage[c.qual], sf.value_storage(c)) if x}
@@ -81,14 +81,17 @@ def run(prog: Program, rep: Report):
         r3_arg_sort(prog, rep, "C09.R12")
     from .ownership import rule_owned_storage
     from .ownership import rule_no_class_state
-    rule_no_class_state(prog, rep, "C09.R13", [sf.sset, sf.smap])
+    rep.attempt(lambda: rule_no_class_state(prog, rep, "C09.R13", [sf.sset, sf.smap]))
+    from .mixins import rule_fresh_iterator, rule_mixin_surface
+    rep.attempt(lambda: rule_mixin_surface(prog, rep, "C09.R14", [sf.sset, sf.smap]))
+    rep.attempt(lambda: rule_fresh_iterator(prog, rep, "C09.R15", [sf.sset, sf.smap]))
     rep.rule("C09.R11", "SortedSet / SortedMap own the arrays they mutate in place: every value stored into the key / value storage is "
              "created by the storing method (display, comprehension, list()/sorted()/copy/slice) or derived from such a value, "
              "never another object's field, a parameter or another field of the instance", floor=3)
     for c in (sf.sset, sf.smap):
         rule_owned_storage(prog, rep, "C09.R11", c, {x for x in (sf.key_storage[c.qual], sf.value_storage(c)) if x}, declare=False)
-    oneshot_rule(prog, rep, "C09.R9", [prog.method(sf.sset, "__init__"), prog.method(sf.smap, "__init__")],
-                 "initial values given as a generator must all arrive in the storage")
+    rep.attempt(lambda: oneshot_rule(prog, rep, "C09.R9", [prog.method(sf.sset, "__init__"), prog.method(sf.smap, "__init__")],
+                 "initial values given as a generator must all arrive in the storage"))
 
 
 # ---------------------------------------------------------------------------------------------- R1
